@@ -55,6 +55,24 @@ func BindSpecs(thorough bool) []*spec.Spec {
 		out = append(out, withCell(spec.One("bind_required_renamed", f), "bind/loc=query,card=required_renamed_repeated", "extended", "valid", "bind"))
 	}
 	{
+		// required query parameters on every cardinality and on several kinds, on a bodiless and on a body verb
+		mk := func(name string, body bool) *spec.Message {
+			m := spec.M(name, spec.F("one_i", "int32").QReq("one_i"), spec.F("one_s", "string").QReq(""), spec.F("opt_i", "int32").Opt().QReq("opt_i"), spec.F("opt_s", "string").Opt().QReq("os"),
+				spec.F("opt_b", "bool").Opt().QReq("opt_b"), spec.F("opt_l", "int64").Opt().QReq("opt_l"), spec.F("many_i", "int32").Rep().QReq("many_i"), spec.F("free", "string").Opt().Q("free"))
+			if body {
+				m.Fields = append(m.Fields, spec.F("text", "string"))
+			}
+			return m
+		}
+		f := &spec.File{Messages: []*spec.Message{mk("RcGet", false), mk("RcPost", true), spec.M("Out", spec.F("ok", "bool"))},
+			Services: []*spec.Service{spec.Svc("ReqCardService", "/rc",
+				spec.RPC("RcGet", "RcGet", "Out", "GET", "/r"),
+				spec.RPC("RcDelete", "RcGet", "Out", "DELETE", "/r"),
+				spec.RPC("RcPost", "RcPost", "Out", "POST", "/r"),
+			)}}
+		out = append(out, withCell(spec.One("bind_required_cards", f), "bind/loc=query,card=required_cards", "extended", "valid", "bind"))
+	}
+	{
 		var msgs []*spec.Message
 		s := spec.Svc("PathBindService", "/pb")
 		for _, k := range bindKinds {
